@@ -51,6 +51,7 @@ def leaf_lines(kind, n):
         "table-ragged": ["| a | b |", "|---|---|", "| 1 |", "| 1 | 2 | 3 |"],
         "code": ["```", "C%d" % n, "```"],
         "inline-html": ["I%d <b>bold</b> and <i>it</i>" % n],
+        "html-img-mixed": ['<img src="a%d.png" name="a" alt="A">' % n, "<p>mixed %d</p>" % n],  # an understood element followed by other HTML: the block stays raw, nothing is registered
         "target-a-titled": ["(a)=", "## Titled %d" % n],
         "link-a-twice": ["L%d [](#a) and [](#a) and [](#a)" % n],
         "target-n": ["(n)=", "T%d after target n" % n],
@@ -80,7 +81,7 @@ def leaf_lines(kind, n):
 
 DIRS = ["d-figure", "d-figure-bad", "d-list-table", "d-list-table-ragged", "d-table", "d-csv", "d-topic", "d-sidebar", "d-epigraph", "d-parsed-literal", "d-container", "d-rubric", "d-math", "d-code",
         "d-admon-title", "d-evalrst", "d-unknown", "d-compound"]
-NAMES = ["fnref", "fndef", "target-n", "h1-n", "fnref-a", "fndef-a", "link-a", "target-a", "target-a-titled", "link-a-twice"]
+NAMES = ["fnref", "fndef", "target-n", "h1-n", "fnref-a", "fndef-a", "link-a", "target-a", "target-a-titled", "link-a-twice", "html-img-mixed"]
 
 
 def gen_blocks(c, depth, nblocks, counter, leafs=None):
@@ -178,11 +179,11 @@ def run_stages(text, real=False, raw_enabled=True):
     settings.halt_level = 6
     settings.warning_stream = io.StringIO()
     settings.myst_heading_anchors = 2
-    settings.myst_enable_extensions = ["attrs_block"]
+    settings.myst_enable_extensions = ["attrs_block", "html_image", "html_admonition"]
     settings.raw_enabled = raw_enabled
     d1 = new_document("src.md", settings)
     Parser().parse(text, d1)
-    d2, _ = CR.publish(text, {"myst_heading_anchors": 2, "myst_enable_extensions": ["attrs_block"], "report_level": 5, "raw_enabled": raw_enabled}, real=real)
+    d2, _ = CR.publish(text, {"myst_heading_anchors": 2, "myst_enable_extensions": ["attrs_block", "html_image", "html_admonition"], "report_level": 5, "raw_enabled": raw_enabled}, real=real)
     return [("after-parse", d1), ("after-transforms", d2)]
 
 
